@@ -62,6 +62,14 @@ func ruleMODE1(c *Ctx) {
 					if sel, ok := x.Fun.(*ast.SelectorExpr); ok && sel.Sel.Name == "Push" {
 						pushCall = x
 					}
+					// the same thing spelled with the slice: S = append(S, x)
+					if builtinName(info, x) == "append" && len(x.Args) == 2 {
+						if as, ok := parents(arm)[x].(*ast.AssignStmt); ok && len(as.Lhs) == 1 && sameExpr(as.Lhs[0], x.Args[0]) {
+							if fv, _ := selField(info, x.Args[0]); fv != nil && fv != modeField {
+								pushCall = &ast.CallExpr{Fun: x.Fun, Lparen: x.Lparen, Args: x.Args[1:], Rparen: x.Rparen}
+							}
+						}
+					}
 				case *ast.AssignStmt:
 					if fv, _ := selField(info, x.Lhs[0]); fv == modeField {
 						setMode = x
@@ -99,15 +107,33 @@ func ruleMODE1(c *Ctx) {
 	} else {
 		emptyGuard, peek0, pop1, order := false, false, false, false
 		var peekPos, popPos token.Pos
+		armDefs := localDefs(info, r.fd)
+		// lenOf: e (through single-assignment locals) is len(S) for a field S; returns S printed
+		lenOf := func(e ast.Expr) string {
+			call, ok := ast.Unparen(resolveVia(info, armDefs, e)).(*ast.CallExpr)
+			if !ok || builtinName(info, call) != "len" || len(call.Args) != 1 {
+				return ""
+			}
+			if fv, _ := selField(info, call.Args[0]); fv != nil {
+				return exprString(call.Args[0])
+			}
+			return ""
+		}
+		// lenMinus1: e == len(S) - 1
+		lenMinus1 := func(e ast.Expr, stack string) bool {
+			terms, k := linearForm(info, armDefs, e)
+			return k == -1 && len(terms) == 1 && terms["len("+stack+")"] == 1
+		}
 		for _, s := range arm.Body {
 			ast.Inspect(s, func(n ast.Node) bool {
 				switch x := n.(type) {
 				case *ast.IfStmt:
-					cs := exprString(x.Cond)
-					if strings.HasPrefix(cs, "len(") && strings.HasSuffix(cs, ") == 0") && len(x.Body.List) == 1 {
-						if rs, ok := x.Body.List[0].(*ast.ReturnStmt); ok && len(rs.Results) == 1 {
-							if k, ok := usesObj(info, rs.Results[0]).(*types.Const); ok && k.Name() == "_lexerError" {
-								emptyGuard = true
+					if be, ok := ast.Unparen(x.Cond).(*ast.BinaryExpr); ok && be.Op == token.EQL && len(x.Body.List) == 1 {
+						if v, isC := constInt(info, be.Y); isC && v == 0 && lenOf(be.X) != "" {
+							if rs, ok := x.Body.List[0].(*ast.ReturnStmt); ok && len(rs.Results) == 1 {
+								if k, ok := usesObj(info, rs.Results[0]).(*types.Const); ok && k.Name() == "_lexerError" {
+									emptyGuard = true
+								}
 							}
 						}
 					}
@@ -119,6 +145,22 @@ func ruleMODE1(c *Ctx) {
 									peek0 = true
 									peekPos = x.Pos()
 								}
+							}
+						}
+						// mode = S[len(S)-1]
+						if ix, ok := ast.Unparen(x.Rhs[0]).(*ast.IndexExpr); ok {
+							if fv2, _ := selField(info, ix.X); fv2 != nil && fv2 != modeField && lenMinus1(ix.Index, exprString(ix.X)) {
+								peek0 = true
+								peekPos = x.Pos()
+							}
+						}
+					}
+					// S = S[:len(S)-1]
+					if len(x.Lhs) == 1 && len(x.Rhs) == 1 {
+						if sl, ok := ast.Unparen(x.Rhs[0]).(*ast.SliceExpr); ok && sl.Low == nil && sl.High != nil && sl.Max == nil && sameExpr(sl.X, x.Lhs[0]) {
+							if fv2, _ := selField(info, sl.X); fv2 != nil && fv2 != modeField && lenMinus1(sl.High, exprString(sl.X)) {
+								pop1 = true
+								popPos = x.Pos()
 							}
 						}
 					}
@@ -317,7 +359,25 @@ func ruleMODE2(c *Ctx) {
 					// inside `case K:` of a switch on the value's Type the element has type K
 					for q := par[at]; q != nil; q = par[q] {
 						cc, ok := q.(*ast.CaseClause)
-						if !ok || cc.List == nil {
+						if !ok {
+							continue
+						}
+						if sw, ok := par[par[cc]].(*ast.SwitchStmt); ok && cc.List == nil && sw.Tag != nil && isField(info, sw.Tag, "lexergen/mode", "Action", "Type") && usesObj(info, sw.Tag.(*ast.SelectorExpr).X) == o {
+							// default arm: every producible type that has no arm of its own
+							rest := map[string]bool{}
+							for k := range producible {
+								rest[k] = true
+							}
+							for _, cl := range sw.Body.List {
+								for _, l := range cl.(*ast.CaseClause).List {
+									if k, ok := usesObj(info, l).(*types.Const); ok {
+										delete(rest, k.Name())
+									}
+								}
+							}
+							return rest, "value of " + o.Name() + " in the default arm"
+						}
+						if cc.List == nil {
 							continue
 						}
 						if sw, ok := par[par[cc]].(*ast.SwitchStmt); ok && sw.Tag != nil && isField(info, sw.Tag, "lexergen/mode", "Action", "Type") && usesObj(info, sw.Tag.(*ast.SelectorExpr).X) == o {
@@ -488,11 +548,12 @@ func ruleMODE3(c *Ctx) {
 		if !ok || rs.Key == nil {
 			return true
 		}
-		for _, s := range rs.Body.List {
-			if as, ok := s.(*ast.AssignStmt); ok && len(as.Lhs) == 1 && isField(info, as.Lhs[0], "lexergen/mode", "Mode", "Index") && sameExpr(as.Rhs[0], rs.Key) {
+		inspectNoLit(rs.Body, func(m ast.Node) bool {
+			if as, ok := m.(*ast.AssignStmt); ok && len(as.Lhs) == 1 && len(as.Rhs) == 1 && isField(info, as.Lhs[0], "lexergen/mode", "Mode", "Index") && usesObj(info, as.Rhs[0]) != nil && usesObj(info, as.Rhs[0]) == usesObj(info, rs.Key) {
 				loop, idxAssign = rs, as
 			}
-		}
+			return true
+		})
 		return true
 	})
 	if loop == nil {
@@ -510,31 +571,27 @@ func ruleMODE3(c *Ctx) {
 	c.check(sorted, rule, "ast.Spec.RunPass/sorted-names", p.Pos(loop.Pos()), "mode indices are positions in the lexicographically sorted list of mode names", "the list of mode names is not sorted lexicographically before indices are assigned")
 	// no mode is skipped, except when Build failed (errors reported, generation aborts)
 	skip := ""
-	for _, s := range loop.Body.List {
-		if s.Pos() >= idxAssign.Pos() {
-			break
+	loopDefs := localDefs(info, loop)
+	for _, f := range pathConds(info, parents(fd), idxAssign) {
+		if f.e.Pos() < loop.Body.Pos() || f.e.Pos() > loop.Body.End() {
+			continue // facts established outside the loop hold for every mode alike
 		}
-		ast.Inspect(s, func(n ast.Node) bool {
-			br, ok := n.(*ast.BranchStmt)
-			if !ok {
-				return true
-			}
-			okGuard := false
-			if ifs, ok := s.(*ast.IfStmt); ok {
-				if be, ok := ifs.Cond.(*ast.BinaryExpr); ok && be.Op == token.EQL && exprString(be.Y) == "nil" {
-					def := resolveLocalIn(info, loop, be.X)
-					if call, ok := def.(*ast.CallExpr); ok {
-						if fn := calleeFunc(info, call); fn != nil && fn.Name() == "Build" {
-							okGuard = true
-						}
+		okGuard := false
+		if l, op, r, ok := cmpFact(f.e, !f.neg); ok && op == token.NEQ {
+			for _, pr := range [][2]ast.Expr{{l, r}, {r, l}} {
+				if exprString(pr[1]) != "nil" {
+					continue
+				}
+				if call, ok := ast.Unparen(resolveVia(info, loopDefs, pr[0])).(*ast.CallExpr); ok {
+					if fn := calleeFunc(info, call); fn != nil && fn.Name() == "Build" {
+						okGuard = true
 					}
 				}
 			}
-			if !okGuard {
-				skip = fmt.Sprintf("%s: `%s` can skip a mode before its index is assigned: indices get gaps while _lexerModes is positional", p.Pos(br.Pos()), br.Tok)
-			}
-			return true
-		})
+		}
+		if !okGuard {
+			skip = fmt.Sprintf("%s: the index is assigned only under `%s`: a mode can be skipped and indices get gaps while _lexerModes is positional", p.Pos(f.e.Pos()), exprString(f.e))
+		}
 	}
 	c.check(skip == "", rule, "ast.Spec.RunPass/dense-indices", p.Pos(idxAssign.Pos()), "every mode receives its position as index (a mode is skipped only when Build reported errors, which aborts generation)", skip)
 	// default mode sorts first
@@ -586,7 +643,7 @@ func ruleMODE3(c *Ctx) {
 		okParam := false
 		prm := stripConv(winfo, arm.param)
 		if isField(winfo, prm, "lexergen/mode", "Mode", "Index") {
-			def := resolveLocalIn(winfo, w.fn, prm.(*ast.SelectorExpr).X)
+			def := resolveLocalIn(winfo, w.armFn, prm.(*ast.SelectorExpr).X)
 			if ix, ok := ast.Unparen(def).(*ast.IndexExpr); ok && isField(winfo, ix.Index, "lexergen/mode", "Action", "Mode") {
 				okParam = true
 			}
